@@ -10,19 +10,51 @@ P = {'id': 'C13',
               'seq_law',
               'delta_u64_law',
               'delta_u64_refuted',
-              'group_varint_refuted'],
- 'trusted': ['modelled: src/io/var_int.rs (VarInt, SignedVarInt), src/io/var_int_variants.rs (all 7 strategies, single values and sequences)',
-             'spec-only (oracle, no mechanism model): none yet for data_input/data_output/endian/complex_types/smart_ptr'],
+              'group_varint_refuted',
+              'fixed_le_law',
+              'fixed_be_law',
+              'swap_involutive',
+              'be_is_le_of_swap',
+              'blob_law',
+              'option_law',
+              'pair_law',
+              'vec32_law',
+              'versioned_field_law',
+              'version_pack_law',
+              'version_pack_refuted',
+              'sbr_reads_concat',
+              'sbr_initial_stream',
+              'sbr_seek_current',
+              'range_reads_concat',
+              'range_initial_stream',
+              'zc_reads_concat'],
+ 'trusted': ['modelled (M+S): src/io/var_int.rs (VarInt, SignedVarInt), src/io/var_int_variants.rs (all 7 strategies, single values and sequences); '
+             'src/io/simd_encoding/varint.rs (batch = concatenation of scalar LEB128); src/io/data_output.rs / data_input.rs item formats (fixed-width LE, '
+             'varint, length-prefixed bytes/strings); src/io/endian.rs EndianIO byte layouts (LE/BE, any width) and byte swap; Option / Vec (u32 count) / '
+             'versioned-field layouts of complex_types.rs, smart_ptr.rs, versioning.rs; StreamBufferedReader, RangeReader, ZeroCopyReader state machines '
+             '(src/io/stream_buffer.rs, range_stream.rs, zero_copy.rs) over an inner cursor with optional short reads',
+             'spec-only (oracle on the real code, no mechanism model): every DataInput/DataOutput back end pairing (Vec, std::io writer/reader, file, append, '
+             'mmap output, MmapDataInput, MemoryMappedInput, buffered / zero-copy / range wrappers), tuples up to 12, arrays, Result, HashMap/HashSet/BTreeMap/BTreeSet, '
+             'nested collections, ComplexTypeSerializer configurations and batches, Box/Rc/Arc/Weak and shared-pointer contexts, VersionedSerialize records and '
+             'VersionedSerializer configurations, VersionProxy ranges, bulk endian conversion, endianness magic, MmapZeroCopyReader, MultiRangeReader, '
+             'StreamBufferedWriter, ZeroCopyWriter, RangeWriter',
+             ],
  'assumptions': ["wrapping (release) arithmetic in the model; the checked profile's panics are observed on the real code by the harness",
-                 'agreement of model and code is established on the generated cases only'],
- 'level_text': 'Machine-checked Coq theorems, for all 2^64 values / all sequences / all trailing bytes, about a Gallina restatement of the varint codecs as '
-               'written (unsigned LEB128 law, zigzag bijection, prefix-free law, sequence combinator, delta law outside the recorded finding class, refutation '
-               'witnesses for the two findings); the model is tied to the compiled code on every run by evaluating thousands of generated cases in Coq and '
-               'comparing with the implementation, and a direct round-trip oracle runs on the implementation. Proof is the right level because the quantifier '
-               'is all u64/i64 values and all sequences.',
- 'level_note': 'Trusted: Coq kernel + vm_compute; the hand-written model (agreement with the code is checked on generated cases only); harness '
-               'generators/oracle; wrapping arithmetic in the model. Not modelled yet: DataInput/DataOutput back ends, endian, complex_types, smart_ptr, '
-               'versioned fields, simd_encoding/varint.rs.',
- 'technique': 'Coq proof (induction over fuelled LEB128 loops, lia) + model/implementation differential check evaluated by vm_compute',
- 'explanation': 'Unbounded Coq theorems about a Gallina restatement of the varint codecs + differential check of that model against the compiled code + direct '
-                'round-trip oracle on the code.'}
+                 'agreement of model and code is established on the generated cases only',
+                 'the inner reader of the reader models is a std::io::Cursor, optionally limited to k bytes per call; other inner readers are covered by the '
+                 'oracle only (files, memory maps, readers stacked on readers)',
+                 'reader theorems speak about histories without an error outcome; that plain reads never fail is checked on the real code by the oracle'],
+ 'level_text': 'Machine-checked Coq theorems, unbounded (all values / all sequences / all trailing bytes / all operation histories, buffer capacities and '
+               'short-read behaviours), about a Gallina restatement of the codecs and readers as written: varint laws, zigzag bijection, prefix-free law, '
+               'sequence / option / pair / u32-counted-vector combinators, fixed-width LE/BE integers of any width, byte-swap involution, length-prefixed '
+               'byte strings, versioned fields, Version packing (law + refutation), delta law outside the recorded finding class, refutation witnesses for '
+               'the recorded findings, and "the bytes handed out concatenate to the inner stream (of the range)" for the buffered, the ranged and the zero-copy reader. The '
+               'model is tied to the compiled code on every run by evaluating thousands of generated cases (values, item scripts, reader histories) in Coq and '
+               'comparing with what the implementation returned; a direct oracle (round trip, exact bytes consumed, concatenation, reader = reference slice '
+               'under arbitrary read-size histories) runs on the implementation over every back end the property names.',
+ 'level_note': 'Trusted: Coq kernel + vm_compute; the hand-written models (agreement with the code is checked on generated cases only); harness '
+               'generators/oracle; wrapping arithmetic in the model. Spec-only cells are listed under `trusted`; their level is differential testing, not proof.',
+ 'technique': 'Coq proof (induction over fuelled loops, stream invariants for the reader state machines, lia) + model/implementation differential check evaluated by '
+              'vm_compute + direct oracle on the real code with a probe child process for cases that abort',
+ 'explanation': 'Unbounded Coq theorems about a Gallina restatement of the serialisation codecs and stream readers + differential check of that model against the '
+                'compiled code + direct round-trip / bytes-consumed / stream-equality oracle on the code over every named back end.'}
